@@ -254,8 +254,8 @@ def design(pid, res, tier):
             runs.append((cfg, True))
     # unbounded input (any number of chunks, data abstracted): control properties for every length
     if pid in ("C04", "C14"):
-        for T in ((1, 2) if tier == "quick" else (1, 2)):
-            for sp in (False, True):
+        for T in ((1, 2) if tier == "quick" else (1, 2, 3)):
+            for sp in ((False, True) if T < 3 else (False,)):     # T=3: 2.5 M states, ~24 min with liveness
                 nm = "PLUB_%s_T%d_sp%d_p%d" % (pid, T, sp, os.getpid())
                 g = os.path.join(wv.SPEC, "gen"); os.makedirs(g, exist_ok=True)
                 txt = ("CONSTANTS T = %d  N = 0  S = 32  Dir = \"enc\"  EofPeek = TRUE  Pad = 0\n"
@@ -266,14 +266,15 @@ def design(pid, res, tier):
                 with open(os.path.join(g, nm + ".cfg"), "w") as f:
                     f.write(txt)
                 runs.append((os.path.join("gen", nm), True))
-        res.cov["unbounded_input_abstraction"] = "Pipeline.tla with Unbounded = TRUE (any number of chunks of 1..2 blocks, block identities / output / counters abstracted): T in {1,2}, with and without spurious wake-ups - %s for inputs of every length" % ("deadlock freedom, Quiescent and <>Done under fairness (the input ends)" if pid == "C04" else "Exclusive and NoUnderflow")
+        res.cov["unbounded_input_abstraction"] = "Pipeline.tla with Unbounded = TRUE (any number of chunks of 1..2 blocks, block identities / output / counters abstracted): T in {1,2} (thorough: also 3; measured 2 512 364 distinct states, 8.6 M transitions), with and without spurious wake-ups - %s for inputs of every length" % ("deadlock freedom, Quiescent and <>Done under fairness (the input ends)" if pid == "C04" else "Exclusive and NoUnderflow")
     negs = {"C14": ["MC_Pipeline_neg_gate", "MC_Pipeline_neg_while"], "C03": ["MC_Pipeline_neg_gate2"],
             "C04": ["MC_Pipeline_neg_eof1", "MC_Pipeline_neg_notifyR", "MC_Pipeline_neg_notifyU", "MC_Pipeline_neg_readytest"]}[pid]
     for ng in negs:
         runs.append((ng, False))
 
     def one(r):
-        return wv.tlc("MC_Pipeline", cfg=r[0], workers=2, timeout=1800, xmx="1g")
+        big = "_T3_" in r[0] and "PLUB" in r[0]
+        return wv.tlc("MC_Pipeline", cfg=r[0], workers=10 if big else 2, timeout=7200 if big else 1800, xmx="12g" if big else "1g")
     with cf.ThreadPoolExecutor(7) as ex:
         outs = list(ex.map(one, runs))
     for (cfg, must), o in zip(runs, outs):
